@@ -1,6 +1,11 @@
 //! Scenarios `cw1wl` (cw1-whitelist) and `cw1sk` (cw1-subkeys): the real entry points in direct mode.
 // SCENARIO cw1wl crate::scen_cw1::WlScen::new()
 // SCENARIO cw1sk crate::scen_cw1::SkScen::new()
+// SCENARIO cw1skwide crate::scen_cw1::SkScen::new_wide()
+//
+// `cw1skwide` (C20): a pool of 40 (1–2 admins, the rest subkeys); the generator grows AllAllowances / AllPermissions beyond the maximum page size,
+// gives a run of neighbouring subkeys (positions 8..13 of the sorted pool) short-lived allowances so that several
+// EXPIRED entries in a row precede live ones (AllAllowances filters before `take`), and issues explicit page requests.
 #![allow(deprecated)]
 use crate::common::*;
 use cosmwasm_std::testing::{mock_env, MockApi, MockQuerier};
@@ -208,6 +213,10 @@ pub struct Cw1Scen {
     pool: Vec<Addr>,
     inited: bool,
     seed: u64,
+    /// `cw1skwide`: pool of 40 (C20)
+    wide: bool,
+    /// generator (wide): 0 = allowance-heavy trace, 1 = permission-heavy trace
+    mode: u64,
 }
 
 pub struct WlScen;
@@ -222,15 +231,22 @@ impl SkScen {
     pub fn new() -> Cw1Scen {
         Cw1Scen::make(true)
     }
+    pub fn new_wide() -> Cw1Scen {
+        let mut s = Cw1Scen::make(true);
+        s.wide = true;
+        s
+    }
 }
 
 impl Cw1Scen {
     fn make(sub: bool) -> Self {
-        Cw1Scen { sub, deps: new_deps(), env: mock_env(), pool: vec![], inited: false, seed: 0 }
+        Cw1Scen { sub, deps: new_deps(), env: mock_env(), pool: vec![], inited: false, seed: 0, wide: false, mode: 0 }
     }
 
     fn name(&self) -> &'static str {
-        if self.sub {
+        if self.wide {
+            "cw1skwide"
+        } else if self.sub {
             "cw1sk"
         } else {
             "cw1wl"
@@ -304,8 +320,12 @@ impl Cw1Scen {
         for _ in 0..10_000 {
             match f(cursor.clone(), limit) {
                 Some(p) if !p.is_empty() => {
-                    cursor = Some(p.last().unwrap().split(':').next().unwrap().to_string());
+                    let next = Some(p.last().unwrap().split(':').next().unwrap().to_string());
                     out.extend(p);
+                    if next == cursor {
+                        break; // no progress (a defect in the code under test): do not walk forever
+                    }
+                    cursor = next;
                 }
                 _ => break,
             }
@@ -626,6 +646,83 @@ impl Cw1Scen {
         }
     }
 
+    /// `cw1skwide`: grow the listings, let a run of neighbouring allowances expire, request pages explicitly.
+    fn gen_wide_op(&self, rng: &mut Rng) -> Option<String> {
+        let admins = self.admins_now();
+        let mut sorted: Vec<Addr> = self.pool.iter().filter(|a| !admins.contains(&a.to_string())).cloned().collect();
+        sorted.sort();
+        if admins.is_empty() || sorted.is_empty() {
+            return None;
+        }
+        let snd = rng.pick(&admins).clone();
+        let h = self.env.block.height;
+        let t = self.env.block.time.nanos();
+        // allowance-heavy trace: 60 % grants, 10 % permissions; permission-heavy trace: the other way round
+        let k = match (rng.below(10), self.mode) {
+            (x, 0) if x < 6 => 0,
+            (6, 0) => 4,
+            (0, _) => 0,
+            (x, _) if x < 7 => 4,
+            (x, _) => x,
+        };
+        match k {
+            0..=3 => {
+                // mostly a subkey that has no stored allowance yet
+                let fresh: Vec<usize> = (0..sorted.len()).filter(|i| self.raw_allowance(&sorted[*i]).is_none()).collect();
+                let i = if !fresh.is_empty() && rng.chance(4, 5) { *rng.pick(&fresh) } else { rng.below(sorted.len() as u64) as usize };
+                let sp = &sorted[i];
+                // positions 8..13 of the sorted pool: allowances that expire within a block or two
+                let exp = if (8..13).contains(&i) && rng.chance(4, 5) {
+                    match rng.below(3) {
+                        0 => format!("h{}", h + 1),
+                        1 => format!("h{}", h + 2),
+                        _ => format!("t{}", t + 1),
+                    }
+                } else {
+                    match rng.below(4) {
+                        0 => "never".to_string(),
+                        1 => format!("h{}", h + 500 + rng.below(9)),
+                        _ => "-".to_string(),
+                    }
+                };
+                // an expired stored allowance is only replaced when a new expiry comes along
+                let exp = match self.raw_allowance(sp) {
+                    Some(a) if a.expires.is_expired(&self.env.block) && exp == "-" => "never".to_string(),
+                    _ => exp,
+                };
+                Some(format!("exec {snd} increase_allowance spender=+{sp} amt={} denom={} expires={exp}", 1 + rng.below(300), rng.pick(&DENOMS)))
+            }
+            4..=6 => {
+                let fresh: Vec<&Addr> = sorted
+                    .iter()
+                    .filter(|a| self.q_permissions(a.as_str()).map(|p| p == Permissions::default()).unwrap_or(true))
+                    .collect();
+                let sp = if !fresh.is_empty() && rng.chance(4, 5) { *rng.pick(&fresh) } else { rng.pick(&sorted) };
+                let perm: String = (0..4).map(|_| if rng.chance(3, 5) { '1' } else { '0' }).collect();
+                Some(format!("exec {snd} set_permissions spender=+{sp} perm={perm}"))
+            }
+            7 => {
+                let dh = *rng.pick(&[1u64, 1, 2, 3]);
+                Some(format!("env height={} time={}", h + dh, t + dh * 5_000_000_000))
+            }
+            _ => {
+                let lim = *rng.pick(&["-", "0", "1", "9", "10", "11", "29", "30", "31", "32", "100"]);
+                let after = match rng.below(6) {
+                    0 => "-".to_string(),
+                    1 => "cosmwasm1m".to_string(),
+                    2 => INVALID_ADDR.to_string(),
+                    3 => rng.pick(&self.pool).to_string(),
+                    _ => rng.pick(&sorted).to_string(),
+                };
+                Some(if rng.chance(3, 5) {
+                    format!("query all_allowances after={after} limit={lim}")
+                } else {
+                    format!("query all_permissions after={after} limit={lim}")
+                })
+            }
+        }
+    }
+
     fn gen_probe_sender(&self, rng: &mut Rng) -> (String, Addr) {
         if rng.chance(1, 20) {
             (format!("-{INVALID_ADDR}"), Addr::unchecked(INVALID_ADDR))
@@ -639,7 +736,7 @@ impl Cw1Scen {
 impl Scenario for Cw1Scen {
     fn start(&mut self, seed: u64, trace: u64) -> String {
         let api = MockApi::default();
-        let p = pool(&api, 5);
+        let p = pool(&api, if self.wide { 40 } else { 5 });
         let header = format!(
             "scenario {} seed={} trace={} pool={}",
             self.name(),
@@ -661,6 +758,18 @@ impl Scenario for Cw1Scen {
     }
 
     fn gen_op(&mut self, rng: &mut Rng, _step: usize) -> String {
+        if !self.inited && self.wide {
+            // few admins (an admin cannot be its own subkey), mostly mutable
+            self.mode = rng.below(2);
+            let n = 1 + rng.below(2) as usize;
+            let admins: Vec<String> = (0..n).map(|i| format!("+{}", self.pool[i])).collect();
+            return format!("inst admins={} mutable={}", admins.join(","), rng.chance(9, 10));
+        }
+        if self.inited && self.wide && rng.chance(9, 10) {
+            if let Some(op) = self.gen_wide_op(rng) {
+                return op;
+            }
+        }
         if !self.inited {
             let mut admins = self.gen_admin_list(rng);
             if admins.is_empty() && rng.chance(3, 4) {
